@@ -29,6 +29,7 @@ void h_sw_extend_by(void) { StringWriter* w; IN_STATE; size_t in_size; char in_v
 #define IN_BITS size_t in_bit, in_oldbits; unsigned in_bitval; g_bit = in_bit; g_oldbits = in_oldbits; g_bitval = in_bitval
 void h_bitw_size(void) { BitWriter* w; IN_STATE; BitWriter_size(w); VERIF_REACH(); }
 void h_bitw_write(void) { BitWriter* w; IN_STATE; IN_BITS; bool in_v; BitWriter_write(w, in_v); VERIF_REACH(); }
+void h_bitw_truncate(void) { BitWriter* w; IN_STATE; IN_BITS; size_t in_size; BitWriter_truncate(w, in_size); VERIF_REACH(); }
 void h_bitr_pread(void) { BitReader* r; IN_STATE; IN_BITS; size_t in_offset; uint8_t in_size; BitReader_pread(r, in_offset, in_size); VERIF_REACH(); }
 void h_bitr_read(void) { BitReader* r; IN_STATE; IN_BITS; uint8_t in_size; bool in_advance; BitReader_read(r, in_size, in_advance); VERIF_REACH(); }
 
